@@ -76,7 +76,7 @@ class CellSpanningTree(SpanningTree):
         else:
             bary = cell_barycenter(self.mesh, persistent=False)
         for iC in self.mesh.id_cells:
-            output.vertices.append(bary[iC])
+            output.vertices.append(bary[iC].copy())
             if self.parent[iC] is not None:
                 output.edges.append([iC, self.parent[iC]])
         return output
